@@ -1,5 +1,6 @@
 import Ubx.Proofs.Consume
 import Ubx.Proofs.Policy
+import Ubx.Props.C06
 /-!
 # C09 — a stream cut at any byte yields a prefix of the uncut stream's output
 
@@ -60,6 +61,28 @@ theorem C09_no_partial (nmeaHdr : Byte → Bool) (cfg : RCfg) (O : Oracle α) (k
 theorem C09_items_inside_cut (nmeaHdr : Byte → Bool) (cfg : RCfg) (O : Oracle α) (k : Nat) (s : Bytes) :
     Slices (rawsOf (readFile nmeaHdr cfg O (s.take k))) (s.take k) :=
   (run_slices fileSrc (fun x => x) file_linear nmeaHdr cfg O _ (s.take k)).1
+
+
+theorem weave_take_prefix {nh} (segs : List (Seg nh)) (j : Nat) : weave (segs.take j) <+: weave segs := by
+  unfold weave
+  refine ⟨((segs.drop j).map Seg.bytes).flatten, ?_⟩
+  rw [← List.flatten_append, ← List.map_append, List.take_append_drop]
+
+/-- **second sentence of C09**: when the stream is a clean concatenation of frames (and frame-start-free noise), every
+    frame lying wholly before the cut — the first `j` segments, for any `j` whose bytes end at or before `k` — is
+    delivered by the cut stream exactly as by the uncut one (those its parser accepts and the filter passes), in
+    order, before anything else -/
+theorem C09_frames_before_cut (nh : Byte → Bool) (cfg : RCfg) (O : Oracle α) (hO : NoCrash O) (segs : List (Seg nh))
+    (j k : Nat) (hk : (weave (segs.take j)).length ≤ k) :
+    ((segs.take j).filterMap Seg.asFrame).filterMap (deliver cfg O)
+      <+: items (readFile nh cfg O ((weave segs).take k)) := by
+  obtain ⟨rest, hrest⟩ := weave_take_prefix segs j
+  have hcut : ((weave segs).take k).take (weave (segs.take j)).length = weave (segs.take j) := by
+    rw [List.take_take, Nat.min_eq_left hk, ← hrest, List.take_left']
+    rfl
+  have h := C09_cut_prefix nh cfg O (weave (segs.take j)).length ((weave segs).take k)
+  rw [hcut, C06_delivers_all_frames nh cfg O hO (segs.take j)] at h
+  exact h
 
 /-- non-vacuity: a concrete stream (UBX frame, noise, truncated second frame), cut inside the second frame -/
 example : items (readFile (α := Unit) (fun b => b = 0x47) ⟨7, false⟩ (fun _ _ => .rejected 0)
